@@ -63,6 +63,7 @@ type stats struct {
 	reports      int
 	outstanding  int // report requests sent and never answered
 	unsendable   int // notifications for which no report request could be sent
+	sendFailed   int // report requests that reached the SMF as a retransmission only (first transmission failed locally)
 }
 
 // generator-side bookkeeping (assumes fault-free execution)
@@ -153,6 +154,20 @@ func gen(t *rapid.T) Case {
 				trig = stack.TrigPERIO
 			}
 			e := Ev{Kind: "report", Sess: si, URRs: urrs, Trig: trig}
+			if rapid.IntRange(0, 9).Draw(t, "sendfail") == 0 {
+				e.Kind = "reportfail"
+				dedup := map[uint32]bool{}
+				var us []uint32
+				for _, u := range urrs {
+					if !dedup[u] {
+						dedup[u] = true
+						us = append(us, u)
+					}
+				}
+				e.URRs = us
+				evs = append(evs, e)
+				continue
+			}
 			if rapid.IntRange(0, 11).Draw(t, "burst") == 0 {
 				// a silent SMF: dozens of report requests outstanding at once (around the sizes of the server's internal queues, 64 and 128)
 				e.N = rapid.SampledFrom([]int{40, 63, 64, 65, 70, 130}).Draw(t, "burst_n")
@@ -279,7 +294,7 @@ func run(c Case) (v *vcore.Violation, stt stats) {
 	}
 	// node 1 names itself by an IPv6 address although the association runs over IPv4: the UPF cannot address report requests
 	// to it, its sessions' reports reach it in responses only - numbered without a gap all the same
-	st, err := stack.New(stack.Opts{Driver: d, Nodes: 2, NodeIDs: map[int]string{1: "2001:db8::b"}})
+	st, err := stack.New(stack.Opts{Driver: d, Nodes: 2, NodeIDs: map[int]string{1: "2001:db8::b"}, MaxRetrans: 3})
 	nd := 0
 	if c.SilentNode {
 		nd = 1
@@ -384,6 +399,55 @@ func run(c Case) (v *vcore.Violation, stt stats) {
 					stt.unsendable++
 				}
 			}
+		case "reportfail":
+			// the first transmission of the report request fails locally (full device queue, filter, route flap); the request
+			// is outstanding all the same and its retransmission, sent once the socket works again, carries the numbers it
+			// took - the URR's next report carries the next one
+			if !alive[ev.Sess] || c.SilentNode {
+				continue
+			}
+			before := st.Srv.VerifTxTable()
+			var reps []upfreport.Report
+			for _, u := range ev.URRs {
+				reps = append(reps, upfreport.USAReport{URRID: u, USARTrigger: upfreport.UsageReportTrigger{Flags: ev.Trig}, StartTime: time.Unix(1700000000, 0), EndTime: time.Unix(1700000100, 0)})
+			}
+			st.Srv.VerifFailSends(true)
+			st.Srv.NotifySessReport(upfreport.SessReport{SEID: r.Sess[ref[ev.Sess]].UP, Reports: reps})
+			st.Srv.NotifySessReport(upfreport.SessReport{SEID: 0xdead0001}) // the loop takes reports in order: once this one is gone the first has been served
+			for t1 := time.Now(); time.Since(t1) < 5*time.Second; {
+				if _, sr, _ := st.Srv.VerifQueues(); sr == 0 {
+					break
+				}
+				time.Sleep(50 * time.Microsecond)
+			}
+			st.Srv.VerifFailSends(false)
+			o := r.Step(stack.Op{Kind: "hb", Peer: nd, Sess: -1})
+			if o.Dead != nil {
+				return vcore.Violatef(o.Dead.Key, "event %d: UPF fatal exit: %.400s", i, o.Dead.Msg), stt
+			}
+			for _, s := range o.SRRs {
+				if x := observe(i, ev.Sess, "SessionReportRequest", s.Msg); x != nil {
+					return x, stt
+				}
+			}
+			r.Pending[0] = nil
+			for id := range st.Srv.VerifTxTable() {
+				if _, old := before[id]; old {
+					continue
+				}
+				// the timer of the request whose first transmission failed expires: its retransmission goes out
+				o := r.Step(stack.Op{Kind: "expire_tx", TrID: id})
+				if o.Dead != nil {
+					return vcore.Violatef(o.Dead.Key, "event %d: UPF fatal exit: %.400s", i, o.Dead.Msg), stt
+				}
+				for _, s := range o.SRRs {
+					if x := observe(i, ev.Sess, "SessionReportRequest (retransmission after a failed first transmission)", s.Msg); x != nil {
+						return x, stt
+					}
+					stt.sendFailed++
+				}
+				r.Pending[0] = nil
+			}
 		case "mod":
 			if !alive[ev.Sess] {
 				continue
@@ -448,6 +512,9 @@ func account(c Case, s stats) {
 	}
 	if s.unsendable > 0 && s.reports > 0 {
 		vcore.E.Class("reports_in_responses_after_notifications_that_could_not_be_sent")
+	}
+	if s.sendFailed > 0 {
+		vcore.E.Class("report_request_whose_first_transmission_failed")
 	}
 	if s.outstanding > 64 {
 		vcore.E.Class("more_than_64_report_requests_outstanding")
